@@ -1618,6 +1618,63 @@ func (a *Activation) loopSpec(li *loopInfo) *LoopSpec {
 	return a.spec.Loops[li.ord]
 }
 
+// staleAt: is there an assignment of variable `name` to a value other than v from which block b can be reached without
+// passing through v's defining block again?
+func (a *Activation) staleAt(name string, v ssa.Value, b *ssa.BasicBlock) bool {
+	var defBlock *ssa.BasicBlock
+	switch d := v.(type) {
+	case ssa.Instruction:
+		defBlock = d.Block()
+	}
+	// the DebugRef that binds name to v tells where the binding happens (v itself may be a parameter or constant)
+	for _, blk := range a.fn.Blocks {
+		for _, ins := range blk.Instrs {
+			if dr, ok := ins.(*ssa.DebugRef); ok && !dr.IsAddr && dr.X == v && dr.Object() != nil && dr.Object().Name() == name {
+				if defBlock == nil || blk.Dominates(defBlock) {
+					defBlock = blk
+				}
+			}
+		}
+	}
+	if defBlock == nil || defBlock == b {
+		return false
+	}
+	for _, blk := range a.fn.Blocks {
+		if blk == b || blk == defBlock || blk.Dominates(b) {
+			continue
+		}
+		other := false
+		for _, ins := range blk.Instrs {
+			if dr, ok := ins.(*ssa.DebugRef); ok && !dr.IsAddr && dr.X != v && dr.Object() != nil && dr.Object().Name() == name {
+				if _, isVar := dr.Object().(*types.Var); isVar {
+					other = true
+				}
+			}
+		}
+		if !other || !defBlock.Dominates(blk) {
+			continue
+		}
+		// can b be reached from blk without passing through defBlock?
+		seen := map[*ssa.BasicBlock]bool{blk: true}
+		work := []*ssa.BasicBlock{blk}
+		for len(work) > 0 {
+			c := work[len(work)-1]
+			work = work[:len(work)-1]
+			for _, s := range c.Succs {
+				if s == defBlock || seen[s] {
+					continue
+				}
+				if s == b {
+					return true
+				}
+				seen[s] = true
+				work = append(work, s)
+			}
+		}
+	}
+	return false
+}
+
 // varsAt resolves source-level variable names to SSA values visible at the head of block b
 // (atEnd: at the end of b). The latest DebugRef / named phi on the dominator chain wins.
 func (a *Activation) varsAt(b *ssa.BasicBlock, atEnd bool, override map[ssa.Value]Val) func(string) (Val, bool) {
@@ -1699,10 +1756,23 @@ func (a *Activation) varsAtUpto(b *ssa.BasicBlock, atEnd bool, override map[ssa.
 			}
 		}
 	}
+	ambiguous := map[string]bool{}
+	checked := map[string]bool{}
 	return func(name string) (Val, bool) {
 		cd, ok := best[name]
 		if !ok {
 			return Val{}, false
+		}
+		// A variable that is dead at b has no phi there: the dominating definition found above may then be stale (some
+		// path from a later assignment reaches b without passing that definition again). Such a name has no single value
+		// here and must not be used (found the hard way: `child` at the exit of redblacktree.Remove resolved to its
+		// initial nil). The contract has to restate it by an expression.
+		if !checked[name] {
+			checked[name] = true
+			ambiguous[name] = !cd.addr && a.staleAt(name, cd.v, b)
+		}
+		if ambiguous[name] {
+			efail("program variable %q has no single value at this point (it is dead here and assigned on some path); restate it by an expression", name)
 		}
 		if ov, ok := override[cd.v]; ok {
 			return ov, true
